@@ -10,7 +10,7 @@ from fractions import Fraction
 import z3
 
 from . import decl, heapops, monitor
-from .core import (TBool, TDict, TInt, TList, TMap, TNone, TNum, TOpaque, TOpt, TRef, TSeq, TSet, TSetV, TStr, TTuple,
+from .core import (esort, epack, eunpack, TBool, TDict, TInt, TList, TMap, TNone, TNum, TOpaque, TOpt, TRef, TSeq, TSet, TSetV, TStr, TTuple,
                    TUnion, Unsupported, Val)
 
 
@@ -110,7 +110,7 @@ class Describer:
             n = _ev(m, z3.Length(v.v)).as_long()
             if n > 8:
                 raise CannotConcretise("long sequence")
-            return {"seq": [self.describe(t.e.make([_ev(m, v.v[i])])) for i in range(n)]}
+            return {"seq": [self.describe(eunpack(_ev(m, v.v[i]), t.e)) for i in range(n)]}
         rid = _ev(m, v.v).as_long()
         memo_key = (rid, type(t).__name__)
         if memo_key in self.memo:
@@ -160,7 +160,7 @@ class Describer:
             n = _ev(m, z3.Length(seq)).as_long()
             if n > 8:
                 raise CannotConcretise("long list")
-            return {"ref": rid, "list": [self.describe(t.e.make([_ev(m, seq[i])])) for i in range(n)]}
+            return {"ref": rid, "list": [self.describe(eunpack(_ev(m, seq[i]), t.e)) for i in range(n)]}
         raise CannotConcretise(f"type {t}")
 
 
